@@ -52,7 +52,7 @@ Why(e, obsset) ==
     ELSE IF ~(A!Allowed(e.os, e.ps) \subseteq obsset) THEN "annotation omits characters the FROM constraint allows"
     ELSE "annotation does not denote exactly the FROM constraint"
 
-Judge(e, i) ==
+JudgeBody(e, i) ==
     IF e.status \in {"err", "warn"} THEN Report(i, "SKIP", e.status)
     ELSE IF e.status # "ok" THEN Report(i, "MISMATCH", "no item generated for the type")
     ELSE IF e.ty \notin KMTypes THEN
@@ -70,6 +70,16 @@ Judge(e, i) ==
            IN \A d \in D : IF d \in KnownDevs THEN Report(i, "DEVIATION", d)
                            ELSE Report(i, "MISMATCH", Why(e, obsset) \o " (as deviation " \o d \o ", not a listed known finding)")
       ELSE Report(i, "MISMATCH", Why(e, obsset))
+
+\* D_C15_range_spans_gap: a range whose bounds lie in the base alphabet but which, in code-point order, passes over characters
+\* that are not in it (PrintableString "A".."z" passes over [ \ ] ^ _ `) is emitted as that code-point range; the range of the
+\* constraint is the characters of the type between the bounds (X.680 51.4.3).  The rest of the event is judged as if the
+\* annotation stayed inside the base alphabet.
+Judge(e, i) ==
+    LET gap == e.status = "ok" /\ e.outside /\ \E j \in DOMAIN e.os : e.os[j].k = "range" IN
+    /\ gap => (IF "D_C15_range_spans_gap" \in KnownDevs THEN Report(i, "DEVIATION", "D_C15_range_spans_gap")
+               ELSE Report(i, "MISMATCH", "annotation names characters outside the base type's alphabet (as deviation D_C15_range_spans_gap, not a listed known finding)"))
+    /\ JudgeBody([e EXCEPT !.outside = e.outside /\ ~gap], i)
 
 Init == l = 1 /\ A!Init
 
